@@ -266,8 +266,103 @@ def _(c):
 
 def _randrange_field_apply(ex, F, vals, line):
     from contracts.keys import mk_nonce
+    from pyvc.field import FInt, lin
+    o = vals["order"]
+    ok = isinstance(o, FInt) and F.status(o.res) == "zero" and o.iv == (lin(1, 0), lin(1, 0))
+    ex.oblige_decided("%s#call(util.randrange)#order-argument-is-the-group-order" % ex.cur_func, ok, "interval",
+                      "randrange called with %r" % (o,), line, kind="call-requires")
     ex.n_fresh += 1
     return mk_nonce(ex, F, "k_rand%d" % ex.n_fresh)
 
 
 _R["ecdsa.util.randrange"].field_apply = _randrange_field_apply
+
+
+# ---- seed-derived scalars (C17) -----------------------------------------------------------------------------------
+from pyvc.models import MODELS
+
+
+def _prng_model(ex, args, kwargs, line):
+    """PRNG(seed): a callable returning the next N bytes of a stream determined by seed (the generator-based
+    class itself is trusted; its determinism is part of the bounded replay check)"""
+    ex.assumptions.add("util.PRNG(seed)(n) returns n bytes that depend on seed and the position in the stream only (trusted; generator semantics not modelled)")
+
+    def gen(ex_, a, k, l):
+        (n,) = a
+        b = ex_.fresh_bytes("prng")
+        if isinstance(n, int):
+            n = max(n, 0)
+        ex_.assume(eq(blen(b), imax(n, 0)))
+        return b
+    return SCallable("PRNG", gen)
+
+
+MODELS["ecdsa.util.PRNG"] = _prng_model
+
+
+def _bits_and_bytes_model(ex, args, kwargs, line):
+    """bits_and_bytes(order) computes int(math.log(order - 1, 2) + 1) in floating point: outside the exact subset.
+    Assumed only: the result is >= 1 for order >= 2 (log2 of a number >= 1 is >= 0); bytes, extrabits follow exactly."""
+    (order,) = args
+    ex.assumptions.add("float: int(math.log(order - 1, 2) + 1) >= 1 for order >= 2 (its exact value is not assumed)")
+    bits = ex.fresh_int("bits")
+    ex.assume(bits >= 1)
+    return (bits, bits // 8, bits % 8)
+
+
+MODELS["ecdsa.util.bits_and_bytes"] = _bits_and_bytes_model
+
+
+@contract("ecdsa.util.randrange_from_seed__overshoot_modulo", props=["C17"], seed=Bytes, order=Int)
+def _(c):
+    c.requires(lambda order: order >= 2)
+    c.returns(lambda ex: ex.fresh_int("k"))
+    c.ensures(lambda order, result: And_(1 <= result, result <= order - 1), "in-range")
+
+
+@contract("ecdsa.util.randrange_from_seed__trytryagain", props=["C17"], seed=Bytes, order=Int)
+def _(c):
+    c.requires(lambda order: order >= 2)
+    c.loop(0, invariant=lambda: True)
+    c.returns(lambda ex: ex.fresh_int("k"))
+    c.ensures(lambda order, result: And_(1 <= result, result <= order - 1), "in-range")
+
+
+# bounded companion of C17: exact output distribution of the real randrange over ALL entropy chunks
+def randrange_histogram(tier, seed):
+    import ecdsa.util as U
+    n_cases = 0
+    found = {}
+    samples = []
+    top = 2 ** 8 if tier == "quick" else 2 ** 12
+    step = 1 if tier == "thorough" else 1
+    for order in list(range(2, min(top, 300))) + list(range(300, top, 37 if tier == "quick" else 7)) + [top - 1, top, top + 1]:
+        u2 = (order - 2).bit_length() or 1
+        u256 = u2 // 8 + 1
+        counts = {}
+        rejected = 0
+        for chunk_val in range(256 ** u256):
+            chunk = chunk_val.to_bytes(u256, "big")
+            calls = []
+
+            def ent(k, chunk=chunk, calls=calls):
+                calls.append(k)
+                if len(calls) > 1:
+                    raise StopIteration
+                return chunk
+            try:
+                v = U.randrange(order, ent)
+                counts[v] = counts.get(v, 0) + 1
+            except StopIteration:
+                rejected += 1
+            n_cases += 1
+            if calls[0] != u256:
+                found.setdefault("util.randrange#candidate-is-top-bits-of-last-chunk-plus-one", (dict(order=order, entropy=None), "asked the stream for %r bytes, expected %d" % (calls[0], u256)))
+        D = 2 ** (8 * u256 - u2)
+        ok = sorted(counts) == list(range(1, order)) and all(c == D for c in counts.values())
+        if not ok:
+            bad = [v for v in range(1, order) if counts.get(v, 0) != D][:3] + [v for v in counts if not 1 <= v < order][:3]
+            found.setdefault("util.randrange#uniform-over-all-chunks", (dict(order=order, entropy=None), "every v in [1, order-1] must have exactly %d pre-images among the %d chunks; e.g. v = %s have %s" % (D, 256 ** u256, bad, [counts.get(v, 0) for v in bad])))
+        if len(samples) < 2:
+            samples.append(dict(order=order, chunks=256 ** u256, preimages_per_value=D, rejected=rejected))
+    return n_cases, found, samples
